@@ -149,6 +149,34 @@ def scenarios():
                 steps.append(call('c%d' % i, a))
         scen('fresh-configs/%s' % syn, _w(cfgs), steps)
 
+    # 1b. the same abbreviation under configs that differ in ONE thing (memos keyed by the
+    #     abbreviation, by a snippet name, or by part of the configuration)
+    variants = [
+        {}, {'syntax': 'jsx'}, {'options': {'jsx.enabled': True}}, {'options': {'markup.href': False}}, {'text': ['w1', 'w2']},
+        {'text': 'http://emmet.io'}, {'variables': {'lang': 'xx', 'charset': 'yy'}}, {'maxRepeat': 2}, {'options': {'bem.enabled': True}},
+        {'syntax': 'pug'}, {'syntax': 'xsl'}, {'snippets': {'foo': 'section.v1', 'a': 'a.v1[href]'}}, {'snippets': {'foo': 'article.v2>p', 'a': 'a.v2'}},
+        {'context': {'name': 'ul'}}, {'options': {'output.selfClosingStyle': 'xhtml', 'output.attributeQuotes': 'single'}},
+        {'options': {'output.reverseAttributes': True}}, {'options': {'comment.enabled': True}}, {'options': {'inlineElements': []}},
+    ]
+    same = ['ul>li*4>a', 'foo+a', '.x>.-y_z', 'div.{a}+..b', '!', 'img+br', 'a', 'label>input', '[title]+p>span*3', 'html[lang=${lang}]{${charset}}',
+            'xsl:variable[name=a select=b]>p', 'p>lorem3']
+    cfgs = [dict(v, id='c%d' % i, holder=('Config' if i % 3 == 2 else 'dict')) for i, v in enumerate(variants)]
+    for a in same:
+        steps = [call(c['id'], a) for c in cfgs] + [call(c['id'], a) for c in reversed(cfgs)]
+        scen('same-abbreviation-across-configs/%s' % a, _w(cfgs), steps)
+    svariants = [
+        {}, {'options': {'stylesheet.intUnit': 'pt'}}, {'options': {'stylesheet.unitless': []}}, {'options': {'stylesheet.fuzzySearchMinScore': 0.6}},
+        {'context': {'name': '@@section'}}, {'context': {'name': 'margin'}}, {'options': {'stylesheet.json': True}}, {'syntax': 'stylus'},
+        {'snippets': {'kmar': 'margin:10', 'zidx': 'z-index:5'}}, {'snippets': {'kmar': 'margin:20 30', 'zidx': 'z-index:auto|7'}},
+        {'options': {'stylesheet.shortHex': False}}, {'options': {'stylesheet.keywords': ['auto']}}, {'options': {'stylesheet.unitAliases': {'p': 'pt'}}},
+        {'options': {'stylesheet.skipUnmatched': False}},
+    ]
+    ssame = ['m10', 'kmar', 'zidx+zom', 'c#fc0', 'm:a', 'w10p', 'foo', 'bd1-s', 'a', 'trf-s(2)', 'p!', 'lh1.5+op.5']
+    scfgs = [dict(v, id='c%d' % i, type='stylesheet', holder=('Config' if i % 3 == 2 else 'dict')) for i, v in enumerate(svariants)]
+    for a in ssame:
+        steps = [call(c['id'], a) for c in scfgs] + [call(c['id'], a) for c in reversed(scfgs)]
+        scen('same-stylesheet-abbreviation-across-configs/%s' % a, _w(scfgs), steps)
+
     # 2. host edits between two looks
     def edit(cfg, path, value=None, inplace=True, delete=False):
         op = {'op': 'edit_cfg', 'cfg': cfg, 'path': path, 'inplace': inplace}
